@@ -62,6 +62,10 @@ fn write_tree(dir: &Path, files: &BTreeMap<String, Vec<u8>>) {
     if files.contains_key("ends-without-newline.md") {
         let _ = std::os::unix::fs::chown(dir.join("ends-without-newline.md"), Some(1000), Some(1000));
     }
+    // a note of one's own that is shared with a group (not the primary one): it stays in that group
+    if files.contains_key("big.md") {
+        let _ = std::os::unix::fs::chown(dir.join("big.md"), None, Some(54321));
+    }
     if files.contains_key("sub dir/crlf note.md") {
         let _ = std::fs::create_dir_all(dir.join("elsewhere-in-lib"));
         let _ = std::fs::rename(dir.join("sub dir/crlf note.md"), dir.join("elsewhere-in-lib/real-file.txt"));
@@ -340,6 +344,10 @@ impl Check for C19 {
             use std::os::unix::fs::MetadataExt;
             std::fs::metadata(dir.join("ends-without-newline.md")).ok().map(|m| (m.uid(), m.gid()))
         };
+        let group0: Option<u32> = {
+            use std::os::unix::fs::MetadataExt;
+            std::fs::metadata(dir.join("big.md")).ok().map(|m| m.gid())
+        };
         std::thread::sleep(std::time::Duration::from_millis(15));
         let base = run_iwe(&dir, None, None, &log);
         for (k, t) in mtimes(&dir) {
@@ -382,6 +390,13 @@ impl Check for C19 {
                 rep.count("owner_checks", 1);
                 if (m.uid(), m.gid()) != o0 {
                     rep.violate("note-owner-changed", "fault-free", format!("a note owned by {:?} belongs to ({}, {}) after normalize", o0, m.uid(), m.gid()), replay.clone());
+                }
+            }
+            if let (Some(g0), Ok(m)) = (group0, std::fs::metadata(dir.join("big.md"))) {
+                use std::os::unix::fs::MetadataExt;
+                rep.count("group_checks", 1);
+                if m.gid() != g0 {
+                    rep.violate("note-group-changed", "fault-free", format!("a note in group {} is in group {} after normalize", g0, m.gid()), replay.clone());
                 }
             }
             if let Ok(m) = std::fs::symlink_metadata(dir.join("sub dir/crlf note.md")) {
